@@ -4,6 +4,7 @@ import (
 	"fmt"
 	"math/rand"
 	"os"
+	"os/exec"
 	"path/filepath"
 	"runtime/debug"
 	"sort"
@@ -95,6 +96,9 @@ type HarnessResult struct {
 	Funcs      map[string]int
 	Samples    []PathSample
 	MaxInstrs  int
+	Recheck    []recheckQuery
+	CrossChecked, CrossDisagree int
+	CrossProblems []string
 }
 
 type pathResult struct {
@@ -201,6 +205,7 @@ func (q *workQueue) done(alts [][]int64) {
 }
 
 type RunOpts struct {
+	Recheck   int // assertion queries per worker kept for cross-solver re-discharge
 	Params    map[string]int64
 	Budgets   Budgets
 	Workers   int
@@ -233,6 +238,7 @@ func runHarness(ld *Loaded, name, pkgPath, entryName string, o RunOpts) (*Harnes
 		go func(w int) {
 			defer wg.Done()
 			sol := NewSolver(o.TimeoutMs)
+			sol.RecheckMax = o.Recheck
 			defer sol.Close()
 			e := NewEngine(ld.prog, sol, o.Params, o.Budgets)
 			rng := rand.New(rand.NewSource(o.Seed*1000 + int64(w)))
@@ -359,6 +365,7 @@ func runHarness(ld *Loaded, name, pkgPath, entryName string, o RunOpts) (*Harnes
 				res.Funcs[k] += v
 			}
 			res.Samples = append(res.Samples, samples...)
+			res.Recheck = append(res.Recheck, sol.Recheck...)
 			for _, er := range sol.Errors {
 				res.Problems["SOLVER "+er]++
 			}
@@ -366,6 +373,7 @@ func runHarness(ld *Loaded, name, pkgPath, entryName string, o RunOpts) (*Harnes
 	}
 	wg.Wait()
 	res.Wall = time.Since(t0)
+	crossCheck(res)
 	// deterministic sample order, trimmed
 	sort.Slice(res.Samples, func(i, j int) bool { return fmt.Sprint(res.Samples[i].Trace) < fmt.Sprint(res.Samples[j].Trace) })
 	if len(res.Samples) > o.MaxSample {
@@ -434,4 +442,52 @@ func (e *Engine) renderObs(v value) string {
 
 func harnessOverlayPath(repo, pkgDir, file string) string {
 	return filepath.Join(repo, pkgDir, "zz_verif_"+filepath.Base(file))
+}
+
+
+// crossCheck re-discharges the sampled assertion queries with two other solvers (cvc5, z3 5.x);
+// any disagreement with the verdict z3 4.8.12 gave makes the run inconclusive.
+func crossCheck(res *HarnessResult) {
+	if len(res.Recheck) == 0 {
+		return
+	}
+	type job struct {
+		q recheckQuery
+	}
+	solvers := [][]string{{"cvc5", "--lang", "smt2", "--tlimit", "60000"}, {"z3-new", "-in", "-T:60"}}
+	var mu sync.Mutex
+	var wg sync.WaitGroup
+	sem := make(chan struct{}, 16)
+	for _, q := range res.Recheck {
+		for _, sv := range solvers {
+			wg.Add(1)
+			sem <- struct{}{}
+			go func(q recheckQuery, sv []string) {
+				defer wg.Done()
+				defer func() { <-sem }()
+				cmd := exec.Command(sv[0], sv[1:]...)
+				cmd.Stdin = strings.NewReader("(set-logic QF_BV)\n" + q.Script)
+				out, _ := cmd.CombinedOutput()
+				ans := strings.TrimSpace(string(out))
+				if i := strings.Index(ans, "\n"); i >= 0 {
+					ans = ans[:i]
+				}
+				mu.Lock()
+				defer mu.Unlock()
+				res.CrossChecked++
+				want := "unsat"
+				if q.Sat {
+					want = "sat"
+				}
+				if ans != want {
+					res.CrossDisagree++
+					if len(res.CrossProblems) < 5 {
+						res.CrossProblems = append(res.CrossProblems, fmt.Sprintf("%s answered %q where z3 4.8.12 answered %s", sv[0], ans, want))
+					}
+				}
+			}(q, sv)
+		}
+	}
+	wg.Wait()
+	res.Recheck = nil
 }
